@@ -241,3 +241,17 @@ Print Assumptions C01_bodyWalkers_any_enter_refuted.
 Theorem C01_bodyWalkers_total_partial : forall cls enter skip f, (forall d, In d (decls f) -> enter d = true -> exists b, fd_body d = Some b) -> forall s, body_walk cls enter skip f <> P s.
 Proof. exact (body_walk_total_enter). Qed.
 Print Assumptions C01_bodyWalkers_total_partial.
+
+(* ---------- unlambda: `result.Args[n]` ----------
+   full statement: forall f, wf f = true -> forall s, run_unlambda f <> Panic s.
+   wf does not relate the literal's parameter list to the callee's arity; go/types does (the checker only indexes after
+   types.Identical(TypeOf(literal), TypeOf(callee)) held). That guarantee is the explicit hypothesis g_unlambda_arity (the call's
+   arguments fit the literal's own parameter list, `...T` comes last, an identifier is not a multi-value expression); the tie
+   evaluates it on every converted file (case_detail2 reports "g_unlambda_arity" when it fails). *)
+Theorem C01_unlambda_total_partial : forall f, wf f = true -> all_nodes_sat g_unlambda_arity f -> forall s, run_unlambda f <> Panic s.
+Proof. exact unlambda_total_partial. Qed.
+Print Assumptions C01_unlambda_total_partial.
+
+Example C01_unlambda_hypothesis_satisfiable :
+  wf Witnesses.w_bare_return = true /\ forallb g_unlambda_arity (all_nodes Witnesses.w_bare_return) = true.
+Proof. exact unlambda_hypothesis_satisfiable. Qed.
